@@ -15,44 +15,48 @@ TRUST = "SHA-256 collision-freedom; repr/str/tobytes encode their argument injec
 
 
 LOSSY = ("nunique", "count", "len", "max", "min", "sum")
+ROUNDING = ("int", "floordiv", "floor", "ceil", "round", "mod", "trunc")  # many-to-one as well, but often exactly how the result depends on the input
 
 
-def _atoms_lossless(x, acc):
+def _atoms_lossless(x, acc, stop=None):
     """atoms of x, not descending into summaries that forget order/multiplicity (unique counts, lengths, extrema)"""
+    stop = LOSSY if stop is None else stop
     for m in x.n:
         for a, e in m:
             if a not in acc:
                 acc.add(a)
-                if not (a.kind == "fn" and a.name in LOSSY):
+                if a.kind == "def":
+                    _atoms_lossless(a.args[0].expand() if isinstance(a.args[0], Expr) else a.args[0], acc, stop)
+                elif not (a.kind == "fn" and a.name in stop):
                     for arg in a.args:
                         if isinstance(arg, Expr):
-                            _atoms_lossless(arg, acc)
+                            _atoms_lossless(arg, acc, stop)
             if isinstance(e, Expr):
-                _atoms_lossless(e, acc)
+                _atoms_lossless(e, acc, stop)
     return acc
 
 
-def deep_atoms(v, acc=None):
+def deep_atoms(v, acc=None, stop=None):
     acc = set() if acc is None else acc
     if isinstance(v, Expr):
-        _atoms_lossless(v, acc)
+        _atoms_lossless(v, acc, stop)
     elif isinstance(v, Arr):
         if isinstance(v.val, Expr):
-            _atoms_lossless(v.val, acc)
+            _atoms_lossless(v.val, acc, stop)
         for d in (v.shape or ()):
             if isinstance(d, Expr):
-                _atoms_lossless(d, acc)
+                _atoms_lossless(d, acc, stop)
         if isinstance(v, SymArr):
             v.sym.atoms(True, acc)
         for e in (v.meta.get("elements") or ()):
-            deep_atoms(e, acc)
+            deep_atoms(e, acc, stop)
     elif isinstance(v, Tup):
         for x in v.items:
-            deep_atoms(x[1] if (v.kind == "dict" and isinstance(x, tuple)) else x, acc)
+            deep_atoms(x[1] if (v.kind == "dict" and isinstance(x, tuple)) else x, acc, stop)
     elif isinstance(v, Opaque):
         for k in ("of",):
             if k in v.attrs:
-                deep_atoms(v.attrs[k], acc)
+                deep_atoms(v.attrs[k], acc, stop)
     return acc
 
 
@@ -80,7 +84,9 @@ def sig(v):
     if isinstance(v, Expr):
         return repr(v.expand())
     if isinstance(v, Arr):
-        return "Arr(%s;%s)" % (v.name if isinstance(v, SymArr) else sig(v.val) if isinstance(v.val, Expr) else "?", ",".join(sig(d) for d in (v.shape or ())))
+        # a copy converted to an explicit dtype has other bytes than the caller's array whenever the caller's dtype differs
+        conv = "" if isinstance(v, SymArr) or not (v.meta.get("param") or v.meta.get("alias_of_param")) or v.dtype in (None,) or str(v.dtype).startswith("inherit") else ";as %s" % v.dtype
+        return "Arr(%s;%s%s)" % (v.name if isinstance(v, SymArr) else sig(v.val) if isinstance(v.val, Expr) else "?", ",".join(sig(d) for d in (v.shape or ())), conv)
     if isinstance(v, Tup):
         return "(" + ",".join(sig(x) for x in v.items) + ")"
     if isinstance(v, Opaque):
@@ -125,7 +131,9 @@ def solver_cache_obligations(P):
     # 3. key completeness by dependence, over both analysis points and both solution branches
     for analytic in (False, True):
         key_atoms = set()
+        key_outer = set()  # key material reachable without passing through a rounding operation
         res_atoms = set()
+        res_outer = set()
         runs = []
         for ctx in ("generic", "mean"):
             r = CacheRun(P, analytic, "double", "given", "miss", ctx)
@@ -133,10 +141,13 @@ def solver_cache_obligations(P):
             for args, kwargs, node in r.get_calls:
                 for a in args:
                     deep_atoms(a, key_atoms)
+                    deep_atoms(a, key_outer, LOSSY + ROUNDING)
                 for a in kwargs.values():
                     deep_atoms(a, key_atoms)
+                    deep_atoms(a, key_outer, LOSSY + ROUNDING)
             for p in r.rets:
                 deep_atoms(p.value, res_atoms)
+                deep_atoms(p.value, res_outer, LOSSY + ROUNDING)
                 v = p.value
                 if isinstance(v, Tup):
                     for it in v.items:
@@ -161,9 +172,56 @@ def solver_cache_obligations(P):
             if a.kind == "def":
                 a.args[0].expand().atoms(True, more)
         key_atoms |= more
+        def rounded_views(pool, atoms):
+            """rounding atoms (int(...), a // b, ...) in `pool` through which the parameter enters"""
+            out = []
+            for a in pool:
+                if a.kind == "fn" and a.name in ROUNDING:
+                    inner = set()
+                    for arg in a.args:
+                        if isinstance(arg, Expr):
+                            arg.expand().atoms(True, inner)
+                    if atoms & inner:
+                        out.append(a)
+            return out
+
+        def strip_rounded(pool, atoms):
+            """does the parameter occur in `pool` outside every rounding atom?"""
+            outer = set()
+            def walk(a):
+                if a in outer:
+                    return
+                outer.add(a)
+                if a.kind == "fn" and a.name in ROUNDING + LOSSY:
+                    return
+                for arg in a.args:
+                    if isinstance(arg, Expr):
+                        for b in arg.expand().top_atoms():
+                            walk(b)
+            tops = set(pool)
+            inner_all = set()
+            for a in pool:
+                if a.kind == "fn" and a.name in ROUNDING:
+                    for arg in a.args:
+                        if isinstance(arg, Expr):
+                            arg.expand().atoms(True, inner_all)
+            return bool(atoms & (tops - inner_all)) or any(False for _ in ())
+
         for pname, atoms in PA.items():
             used = bool(atoms & res_atoms)
             keyed = bool(atoms & key_atoms)
+            rv_res = rounded_views(res_atoms, atoms)
+            rv_key = rounded_views(key_atoms, atoms)
+            if used and keyed and rv_key and not (atoms & key_outer):
+                # the key holds the parameter only in rounded form: every rounded form must be one through which the
+                # result itself depends on the parameter (same normal form), otherwise two requests that round alike in
+                # the key can differ in the result
+                foreign = [a for a in rv_key if not any(a is b or alg.atom_expr(a).eq(alg.atom_expr(b)) for b in rv_res)]
+                direct = bool(atoms & res_outer)
+                okr = not foreign and not direct
+                obs.append(req_ob("R-KEY-COMPLETE", site, "%s enters the key only in rounded form, and that is exactly the form in which it enters the result (analytic=%s)" % (pname, analytic), okr,
+                                  detail=None if okr else ("the key holds %s, the result depends on %s%s" % ([str(alg.atom_expr(a))[:80] for a in foreign][:2], [str(alg.atom_expr(a))[:80] for a in rv_res][:2], " and on the unrounded value" if direct else "")),
+                                  key={"param": pname, "analytic": analytic, "clause": "rounded"}))
             if pname == "srf_flx values":
                 obs.append(req_ob("R-KEY-COMPLETE", site, "the footprint result does not depend on the values of the surface-flux array (analytic=%s)" % analytic, not used, key={"param": pname}))
                 continue
